@@ -442,6 +442,11 @@ func main() {
 		if ref := refMediatype(ms); ref != string(mo) && strings.Count(ms, "\"")%2 == 0 && mtSig(ms) != "mediatype:long-segment-guard" {
 			res.Violations = append(res.Violations, vh.Violation{Kind: "oracle", Signature: mtSig(ms), Input: ms, InputHex: vh.Hex([]byte(ms)), Observed: string(mo), Expected: ref, Case: i,
 				Options: map[string]string{"fn": "mediatype"}})
+		} else if strings.Count(ms, "\"")%2 == 0 && !strings.EqualFold(strings.Join(strings.Fields(ref), ""), strings.Join(strings.Fields(string(mo)), "")) || strings.Count(ms, "\"")%2 == 0 && quotedParts(ms) != quotedParts(string(mo)) {
+			// beyond the 1024 guard only the CASE of the long unquoted stretch may differ from the reference: the quoted strings
+			// stay byte for byte and nothing but white space outside them is dropped
+			res.Violations = append(res.Violations, vh.Violation{Kind: "oracle", Signature: "mediatype:quoted-string-or-text-changed-beyond-the-guard", Input: ms, InputHex: vh.Hex([]byte(ms)), Observed: string(mo), Expected: ref, Case: i,
+				Options: map[string]string{"fn": "mediatype"}})
 		}
 	}
 	win.Flush()
@@ -481,7 +486,7 @@ func genMediatypeString(r *vh.Rand) string {
 	}
 	if r.Chance(1, 60) {
 		b.WriteString(strings.Repeat("A", 1100))
-		b.WriteString("\"q\"")
+		b.WriteString(r.Pick("\"q\"", "\"Q  r\"", "; x=\"Hello  World\" ;y=\"Z\"", "\"Q\"  \"R s\""))
 	}
 	return b.String()
 }
@@ -506,6 +511,21 @@ func refMediatype(s string) string {
 			}
 		}
 		b.WriteByte(c)
+	}
+	return b.String()
+}
+
+// quotedParts: the double-quoted strings of s, in order, with their quotes
+func quotedParts(s string) string {
+	var b strings.Builder
+	in := false
+	for i := 0; i < len(s); i++ {
+		if s[i] == '"' {
+			in = !in
+			b.WriteByte('"')
+		} else if in {
+			b.WriteByte(s[i])
+		}
 	}
 	return b.String()
 }
